@@ -76,6 +76,8 @@ def fingerprint(obj, rename=None, depth=8, _seen=None):
     if isinstance(obj, asyncio.Event):
         return ("AE", obj.is_set(), len(obj._waiters))
     mod = type(obj).__module__ or ""
+    if hasattr(obj, "parent_id") and hasattr(obj, "name") and hasattr(obj, "coro"):  # TaskInfo
+        return ("TI", obj.name)
     if mod.startswith("anyio") or mod.startswith("mc."):
         _seen.add(oid)
         fields = []
@@ -192,6 +194,10 @@ def replay(model, hist, fine=False, salt=1, eager=False):
     r.main_exc = ex.main_exc
     if ex.status == "ok" and not ctl.finished:
         r.status = "early-exit"
+    if ex.status == "deadlock" and ctl.finished:
+        # only the harness teardown (cancelling all actors) got stuck, e.g. behind a shielded
+        # re-acquire of a lock held by an idle actor: everything of interest was observed
+        r.status = "ok"
     return r
 
 
